@@ -215,7 +215,7 @@ impl Prop for C18 {
     }
     fn cases(&self, tier: Tier) -> u32 {
         match tier {
-            Tier::Quick => 20000,
+            Tier::Quick => 40000,
             Tier::Thorough => 400_000,
         }
     }
